@@ -1,1 +1,2 @@
+import SpoxModel.Model.BuildAlg
 /-! Property theorems for C04 (only property-level statements and non-vacuity examples live here). -/
